@@ -455,8 +455,17 @@ def replay_session(point, scenario, faults):
                 if not is_new_complete():
                     return {"detail": "[%s] run %d completed but the archive content is %r, plain-dict oracle %r" % (scenario, i + 1, r["content"], D)}
                 return None
-            if not r["fired"] or r["exc"] is None:
+            if not r["fired"]:
                 return None  # the fault did not fire: not reproduced
+            if r["exc"] is None:
+                # the primitive did raise, the session swallowed it and reported success: then the archive must be the new complete content
+                if is_new_complete():
+                    continue
+                st = r["state"]
+                desc = "absent" if st[0] == "absent" else ("%d members %r, end-of-archive marker %s" % (len(st[1]), st[1][:6], r["eof"]) if st[0] == "tar" else repr(st))
+                return {"detail": "[%s] injected fault %s %s#%d was raised by the real primitive but the session completed without an error; the archive it left is: %s (content keys %r); "
+                                  "a session that reports success must leave the new complete content"
+                                  % (scenario, f["kind"], f["rel"], f["nth"], desc, None if r["content"] is None else sorted(map(str, r["content"]))[:6])}
             if scenario in ("new", "solve"):
                 ok_prev = not r["exists"]
             else:
